@@ -294,14 +294,17 @@ R.add('L5.6b', l56b, [{}], desc='not-yet-received message at any ring offset (la
 
 
 # ------------------------------------------------------------------ L5.7 bounded loss scenario
-def l57(ticks):
+def l57(ticks, fragmented=False):
     """one guaranteed single-datagram message; each transmission and each ack-carrying reply is lost
     or delivered by symbolic choice for the first rounds, then the network is healed"""
     clock = proto.clock_at(100.0)
     tx = proto.mk_client_side(clock=clock)
     rx = proto.mk_server_side(clock=clock)
     payload, L = rope.blob('p', 0, None)
-    assume(L <= Packet.MAX_PAYLOAD_SIZE)
+    if fragmented:
+        assume(And(L > Packet.MAX_PAYLOAD_SIZE, L <= Packet.MAX_PAYLOAD_SIZE + Packet.MAX_FRAGMENT_SIZE))
+    else:
+        assume(L <= Packet.MAX_PAYLOAD_SIZE)
     cb = Rec('user')
     tx.send(payload, RetryMode.RETRY_ON_TIMEOUT, cb)
     lossy = 2
@@ -329,10 +332,10 @@ def l57(ticks):
     check(len(got) == 1, 'delivered exactly once after the network heals')
     if got:
         check(got[0] == payload, 'delivered byte-identical')
-    check(len(cb.calls) >= 1 and all(x is True for x in cb.calls), 'success reported to the sender')
+    check(cb.calls == [True], 'success reported to the sender exactly once')
 
 
-R.add('L5.7', l57, lambda tier: [dict(ticks=(5 if tier == 'quick' else 7))],
+R.add('L5.7', l57, lambda tier: [dict(ticks=(5 if tier == 'quick' else 7)), dict(ticks=(7 if tier == 'quick' else 9), fragmented=True)],
       desc='bounded scenario: losses in both directions for the first rounds, then a healed network',
       expect=['delivered exactly once after the network heals'], bounds='5 (thorough 7) ticks of 0.6 s, losses in the first 2 rounds')
 
